@@ -302,6 +302,26 @@ func (g *Gen) special(s *Scope) *TypeRef {
 	for _, m := range ms[:2+g.pick(2)] {
 		t.Members = append(t.Members, &TypeRef{Name: m, Scope: s})
 	}
+	if g.pick(3) == 0 {
+		// two members of one kind that differ only in what they list: two enumerations, or two
+		// bits types, with different members (equal member types would count as one)
+		for q := 0; q < 2; q++ {
+			if g.pick(2) == 0 {
+				m := &TypeRef{Name: "enumeration", Scope: s}
+				for k := 1 + g.pick(2); k > 0; k-- {
+					m.Enums = append(m.Enums, g.name("e"))
+				}
+				t.Members = append(t.Members, m)
+			} else {
+				m := &TypeRef{Name: "bits", Scope: s}
+				for k := 1 + g.pick(2); k > 0; k-- {
+					m.Bits = append(m.Bits, g.name("b"))
+				}
+				t.Members = append(t.Members, m)
+			}
+		}
+		g.R.Shuffle(len(t.Members), func(a, b int) { t.Members[a], t.Members[b] = t.Members[b], t.Members[a] })
+	}
 	return t
 }
 
